@@ -81,7 +81,18 @@ class _CachedLoader:
         return None
 
     def exec_module(self, module: Any) -> None:
-        exec(self.code, module.__dict__)
+        # While celpy's module code runs, `import threading` / `from threading import Lock` yield
+        # scheduler-aware locks (sim/sched.py) so that a lock the library might create can be held
+        # across a yield point without hanging the baton-passing scheduler.
+        from . import sched
+
+        real = sys.modules.get("threading")
+        sys.modules["threading"] = sched.ThreadingProxy()  # type: ignore[assignment]
+        try:
+            exec(self.code, module.__dict__)
+        finally:
+            if real is not None:
+                sys.modules["threading"] = real
 
 
 class _CelpyFinder:
